@@ -281,21 +281,21 @@ Definition q_pre (e : event) : bool :=        (* what can happen before shutdown
   match e with
   | Call _ h _ => match h with OAL | OUCC => false | _ => true end
   | Connect _ _ _ | QueueUpstream _ _ | QueueClient _ | Teardown | Escaped _ => true
-  | AccessLog _ | UpstreamClose | ClientClose => false
+  | AccessLog _ | UpstreamClose | ClientShutdown | ClientClose => false
   end.
 Definition q_post (e : event) : bool :=       (* what shutdown can add *)
   match e with
   | Call _ h _ => match h with OAL | OUCC => true | _ => false end
-  | AccessLog _ | UpstreamClose | ClientClose | Escaped _ => true
+  | AccessLog _ | UpstreamClose | ClientShutdown | ClientClose | Escaped _ => true
   | _ => false
   end.
 Definition q_noup (e : event) : bool := negb (is_queue_upstream e).     (* anything but an upstream queue entry *)
 Definition q_call (e : event) : bool := match e with Call _ _ _ => true | _ => false end.
 
 Lemma call_q_pre hk : hk <> OAL -> hk <> OUCC -> forall e, is_call_of hk e = true -> q_pre e = true.
-Proof. intros H1 H2 [p h a| | | | | | | |] H; try discriminate. destruct hk, h; try discriminate; try reflexivity; contradiction. Qed.
+Proof. intros H1 H2 [p h a| | | | | | | | |] H; try discriminate. destruct hk, h; try discriminate; try reflexivity; contradiction. Qed.
 Lemma call_q_call hk : forall e, is_call_of hk e = true -> q_call e = true.
-Proof. intros [p h a| | | | | | | |] H; try discriminate. reflexivity. Qed.
+Proof. intros [p h a| | | | | | | | |] H; try discriminate. reflexivity. Qed.
 Lemma q_call_noup e : q_call e = true -> q_noup e = true.
 Proof. destruct e; try discriminate; reflexivity. Qed.
 
@@ -324,9 +324,9 @@ Proof.
 Qed.
 
 Lemma q_conn_pre e : q_conn e = true -> q_pre e = true.
-Proof. destruct e as [p [] a| | | | | | | |]; cbn; try discriminate; reflexivity. Qed.
+Proof. destruct e as [p [] a| | | | | | | | |]; cbn; try discriminate; reflexivity. Qed.
 Lemma q_conn_noup e : q_conn e = true -> q_noup e = true.
-Proof. destruct e as [p [] a| | | | | | | |]; cbn; try discriminate; reflexivity. Qed.
+Proof. destruct e as [p [] a| | | | | | | | |]; cbn; try discriminate; reflexivity. Qed.
 
 (* _queue_request_for_upstream: at most one entry, and it is the rebuilt scrubbed request *)
 Lemma queue_request_spec cf t r l :
@@ -506,7 +506,7 @@ Proof.
 Qed.
 
 Lemma call_q_post hk : hk = OAL \/ hk = OUCC -> forall e, is_call_of hk e = true -> q_post e = true.
-Proof. intros [->| ->] [p [] a| | | | | | | |] H; try discriminate; reflexivity. Qed.
+Proof. intros [->| ->] [p [] a| | | | | | | | |] H; try discriminate; reflexivity. Qed.
 
 Lemma access_log_stage_post ps t c0 l : delta_ok q_post l (fst (access_log_stage ps t c0 l)).
 Proof.
@@ -577,7 +577,7 @@ Lemma lifecycle_shape cf ps c0 steps :
          ++ match e with Done c => [AccessLog c] | _ => [] end
          ++ map (fun p => Call (pid p) OUCC AUnit) ps
          ++ (if st_upstream st then [UpstreamClose] else [])
-         ++ [ClientClose].
+         ++ [ClientShutdown; ClientClose].
 Proof.
   intros Ht Hk Hc0 Hf. unfold run_conn.
   destruct (run_steps_initialised cf ps steps [] Hf) as [st Hst].
@@ -630,7 +630,7 @@ Theorem lifecycle_once cf ps c0 steps :
                   /\ (length (filter is_access_log l) = 1%nat -> n = length ps))
     /\ length (filter is_client_close l) = 1%nat
   else
-    l = [ClientClose].
+    l = [ClientShutdown; ClientClose].
 Proof.
   intros Ht Hk Hc0 l. destruct (existsb is_first steps) eqn:Hf.
   - destruct (lifecycle_shape cf ps c0 steps Ht Hk Hc0 Hf) as (l0 & st & dOAL & e & Hr & Hc & Hl).
@@ -650,13 +650,13 @@ Proof.
       now rewrite Hfq. }
     assert (Fu : forall f, f UpstreamClose = false -> filter f (if st_upstream st then [UpstreamClose] else []) = []).
     { intros f Hfu. destruct (st_upstream st); cbn; [now rewrite Hfu|reflexivity]. }
-    assert (Q1 : forall ev, q_pre ev = true -> is_call_of OUCC ev = false) by (intros [p [] a| | | | | | | |]; cbn; try discriminate; reflexivity).
-    assert (Q2 : forall ev, q_pre ev = true -> is_call_of OAL ev = false) by (intros [p [] a| | | | | | | |]; cbn; try discriminate; reflexivity).
-    assert (Q3 : forall ev, q_pre ev = true -> is_access_log ev = false) by (intros [p [] a| | | | | | | |]; cbn; try discriminate; reflexivity).
-    assert (Q4 : forall ev, q_pre ev = true -> is_client_close ev = false) by (intros [p [] a| | | | | | | |]; cbn; try discriminate; reflexivity).
-    assert (D1 : forall ev, is_call_of OAL ev = true -> is_call_of OUCC ev = false) by (intros [p [] a| | | | | | | |]; cbn; try discriminate; reflexivity).
-    assert (D3 : forall ev, is_call_of OAL ev = true -> is_access_log ev = false) by (intros [p [] a| | | | | | | |]; cbn; try discriminate; reflexivity).
-    assert (D4 : forall ev, is_call_of OAL ev = true -> is_client_close ev = false) by (intros [p [] a| | | | | | | |]; cbn; try discriminate; reflexivity).
+    assert (Q1 : forall ev, q_pre ev = true -> is_call_of OUCC ev = false) by (intros [p [] a| | | | | | | | |]; cbn; try discriminate; reflexivity).
+    assert (Q2 : forall ev, q_pre ev = true -> is_call_of OAL ev = false) by (intros [p [] a| | | | | | | | |]; cbn; try discriminate; reflexivity).
+    assert (Q3 : forall ev, q_pre ev = true -> is_access_log ev = false) by (intros [p [] a| | | | | | | | |]; cbn; try discriminate; reflexivity).
+    assert (Q4 : forall ev, q_pre ev = true -> is_client_close ev = false) by (intros [p [] a| | | | | | | | |]; cbn; try discriminate; reflexivity).
+    assert (D1 : forall ev, is_call_of OAL ev = true -> is_call_of OUCC ev = false) by (intros [p [] a| | | | | | | | |]; cbn; try discriminate; reflexivity).
+    assert (D3 : forall ev, is_call_of OAL ev = true -> is_access_log ev = false) by (intros [p [] a| | | | | | | | |]; cbn; try discriminate; reflexivity).
+    assert (D4 : forall ev, is_call_of OAL ev = true -> is_client_close ev = false) by (intros [p [] a| | | | | | | | |]; cbn; try discriminate; reflexivity).
     split; [|split].
     + rewrite !filter_app, (F0 _ Q1), (FD _ D1), filter_oucc_map, (Fu _ eq_refl).
       destruct e; cbn; now rewrite app_nil_r.
@@ -695,7 +695,7 @@ Qed.
 
 Lemma q_post_filters e : q_post e = true ->
   is_connect e = false /\ is_queue_upstream e = false /\ is_queue_client e = false /\ is_request_hook e = false.
-Proof. destruct e as [p [] a| | | | | | | |]; cbn; try discriminate; auto. Qed.
+Proof. destruct e as [p [] a| | | | | | | | |]; cbn; try discriminate; auto. Qed.
 
 Theorem auth_fail_reaches_nothing cf agent code users r c rest c0 :
   truthy (Some code) = true -> auth_ok code (rq_headers r) = false ->
@@ -1001,7 +1001,7 @@ Proof.
   pose proof (run_steps_clean cf ps None false steps [] Hp Hs (fun b H => match H with end) I) as Hq.
   destruct (run_steps cf ps None false steps []) as [l st]. cbn [fst] in Hq.
   eapply qclean_dok; [exact Hq|]. eapply dok_weaken; [|apply shutdown_post].
-  intros e He. destruct e as [p [] a| | | | | | | |]; try discriminate; reflexivity.
+  intros e He. destruct e as [p [] a| | | | | | | | |]; try discriminate; reflexivity.
 Qed.
 
 (* the raw relay only happens inside a CONNECT tunnel or after a protocol upgrade was forwarded *)
